@@ -323,6 +323,18 @@ def run_cell(cell, seed):
         out.append(res(VIOLATED, case, 'M-SHAPE.dtype', 'outputs of dtype %s for %s' % (sorted(set(bad)), nm)) if bad else
                    res(HELD, case, 'M-SHAPE.dtype', ratio=0.0))
     recs += [v for v in attach.drain() if v['monitor'] == 'M-SHAPE.dtype']
+    # ... and whatever such a call did, the modules are what they were: the native calls repeat bit for bit
+    if ok64 and ok32:
+        for A, xs, y0, nm in ((A64, xs64, y64, 'float64'), (A32, xs32, y32, 'float32')):
+            case = dict(base, check='module unchanged by a call in the other precision', module=nm)
+            okr, yr = util.call_lib(A.apply, xs)
+            if not okr:
+                out.append(res(VIOLATED, case, 'M-CONVERT', 'the native call raised %r after a call in the other precision' % (yr,)))
+            else:
+                same = len(yr) == len(y0) and all(a.dtype == b.dtype and a.shape == b.shape and torch.equal(a, b) for a, b in zip(yr, y0))
+                out.append(res(HELD, case, 'M-CONVERT', ratio=0.0) if same else
+                           res(VIOLATED, case, 'M-CONVERT', 'the native %s call no longer returns what it returned before the module '
+                                                            'was called with data of the other precision' % nm))
     # J = 0 (no level): the forward transforms hand the input back, whatever the module's precision
     # (SWTForward returns one tensor per level and therefore nothing for J = 0)
     if cell['kind'] in ('dwt1f', 'dwt2f') and 'J' in cell:
